@@ -3,6 +3,7 @@
 package slip
 
 import (
+	"encoding/json"
 	"fmt"
 	"math"
 	"math/big"
@@ -94,6 +95,9 @@ func SimpleObject(val any) (obj Object) {
 	case uint64:
 		obj = uintObject(tv)
 
+	case json.Number:
+		obj = numberObject(tv)
+
 	case float32:
 		obj = SingleFloat(tv)
 	case float64:
@@ -145,6 +149,22 @@ func uintObject(u uint64) Object {
 		return Fixnum(u)
 	}
 	return (*Bignum)(new(big.Int).SetUint64(u))
+}
+
+// numberObject converts a json.Number to an integer or float. The JSON and
+// SEN parsers use json.Number for numbers that are too large or have too many
+// digits for their int64 and float64 parsing.
+func numberObject(num json.Number) Object {
+	if bi, ok := new(big.Int).SetString(string(num), 10); ok {
+		if bi.IsInt64() {
+			return Fixnum(bi.Int64())
+		}
+		return (*Bignum)(bi)
+	}
+	if f, err := num.Float64(); err == nil {
+		return DoubleFloat(f)
+	}
+	return String(num)
 }
 
 // Simplify an Object.
